@@ -432,6 +432,32 @@ if mode == "history":
     dds.eval(cmt.top)
     s_after = dict(api._store()._paths)
     print(json.dumps({"value": repr((r1, r2)), "error": err, "calls": [], "sigs": {}, "cmt_before": s_before, "cmt_after": s_after})); sys.exit(0)
+if mode in ("history2", "history2_fresh"):
+    # evaluate f (which calls g); rewrite the module so that g is something else and f no longer uses it; evaluate f
+    # again in this process -- or (history2_fresh) evaluate the rewritten module only, in a process without history
+    import importlib, linecache
+    opts = json.loads(sys.argv[3])
+    dds.accept_module("corp")
+    dds.set_store("memory")
+    hp = os.path.join(base, "corp", "hist.py")
+    new_src = opts["g_becomes"] + "\n\ndef f():\n    return 5\n"
+    if mode == "history2_fresh":
+        open(hp, "w").write(new_src)
+    import corp.hist as hist
+    out = []
+    if mode == "history2":
+        out.append(repr(dds.eval(hist.f)))
+        open(hp, "w").write(new_src)
+        os.utime(hp, (2000000000, 2000000000))
+        linecache.checkcache(); importlib.invalidate_caches()
+        for k_ in [k_ for k_ in list(hist.__dict__) if not k_.startswith("__")]:
+            delattr(hist, k_)
+        importlib.reload(hist)
+    try:
+        out.append(repr(dds.eval(hist.f)))
+    except BaseException as e:
+        out.append("%s" % type(e).__name__)
+    print(json.dumps({"value": out[-1], "all": out, "error": None, "calls": [], "sigs": {}})); sys.exit(0)
 if mode == "cmt_fresh":
     dds.accept_module("corp")
     dds.set_store("memory")
@@ -729,6 +755,19 @@ def main():
             evals += 1
             if r.get("error") or r.get("value") != "(2, 5)":
                 note("stale_global_call_cache", "evaluate f (calls g); remove g and the call in the same process; evaluate f again -> %s (a fresh process evaluates the edited module fine)" % (r.get("error") or r.get("value")))
+            # the recorded dependency g is still there but has become something else; whatever a fresh process does with
+            # the rewritten module (a value or an error) is what the process with history must do
+            for label, g_src in (("a set", "g = {1, 2}"), ("an instance of a class of the module", "class C: pass\ng = C()"), ("an int", "g = 3"), ("a class", "class g: pass"), ("a module", "import os as g"), ("a lambda", "g = lambda: 1"), ("a function with another body", "def g():\n    return 100")):
+                dv = os.path.join(tmp, "hist2_%d" % evals)
+                materialise(dv)
+                with_history = run(dv, "history2", {"g_becomes": g_src})
+                dv2 = os.path.join(tmp, "hist2f_%d" % evals)
+                materialise(dv2)
+                without = run(dv2, "history2_fresh", {"g_becomes": g_src})
+                evals += 2
+                if with_history.get("value") != without.get("value"):
+                    note(None, "evaluate f (calls g); rewrite the module so that g is %s and f no longer uses it; evaluate f again in the same process -> %s, a fresh process gives %s" % (label, with_history.get("value") or with_history.get("error"), without.get("value") or without.get("error")))
+                shutil.rmtree(dv, ignore_errors=True); shutil.rmtree(dv2, ignore_errors=True)
             fresh = run(dh, "cmt_fresh")  # the file now holds the second wording
             evals += 1
             if r.get("cmt_after") is not None and r.get("cmt_after") != fresh.get("sigs"):
